@@ -10,7 +10,23 @@
   for the history theorems, every sequence of selections in which any eligible plate may be the
   one that is picked (`Step`, `Reachable`, and at the level of `select_next_plate`: `History`).
 -/
+/-
+  CLAUSE MAP (property text -> theorem)
+  1.  allowed ⊆ unobserved plates not yet in the batch, along every selection sequence .. C16_subset, C16_subset_screen (any state)
+  2.  sample with 1..k-1 plates in the batch: only its plates allowed, at least one ...... C16_in_progress (in every Inv state; Inv in every
+                                                                                          reachable state: C16_invariant, C16_select_histories)
+  3.  a new sample is opened only if >= k of its plates remain .......................... C16_open_needs_k (any state, no invariant needed)
+  4.  every batch prefix has at most one incomplete sample .............................. C16_invariant / C16_select_histories (Inv.one_open)
+  5.  every batch of m*k plates gives each sample 0 or exactly k ........................ C16_full_batches, C16_select_histories
+  6.  plates with more than one sample are refused ...................................... C16_multi_sample_refused (iff)
+  7.  quantifier: all k >= 1, any screens, all selection orders, (rounds) ............... Step/Reachable/History quantify over every allowed pick;
+                                                                                          C16_rounds: the same after ANY finished batches were
+                                                                                          reported with set_observed, and no plate of a finished
+                                                                                          batch is ever allowed again
+  harness-only: numpy views behind Plate.sample_ids / n_unique_samples / is_observed (container fidelity), argmin of the scores (C06).
+-/
 import Batchie.Lemmas.Policy
+import Batchie.Lemmas.PolicyRounds
 
 namespace Batchie.Props.C16
 
@@ -111,6 +127,30 @@ theorem C16_select_histories (k : Nat) (hk : 1 ≤ k) (screen : List Plate)
   have hr := reachable_of_history hS h1 h
   exact ⟨inv_of_reachable hk hr, fun m hm s => full_batches hk (inv_of_reachable hk hr) m hm s⟩
 
+/-- **Across rounds.** Start from any screen `s0` with distinct plate ids whose unobserved plates are single-sample; report any
+    number of finished batches `done` with `Screen.set_observed` (`afterRounds`: those plates become observed, nothing else changes);
+    then run ANY selection history `ids` of `select_next_plate` on the resulting screen.  The batch satisfies the invariant, a batch
+    of `m·k` plates gives every sample zero or exactly `k`, and every plate allowed at that point is unobserved, outside the current
+    batch and was in NONE of the finished batches. -/
+theorem C16_rounds (k : Nat) (hk : 1 ≤ k) (s0 : List Plate)
+    (hS : (s0.map (·.id)).Nodup) (h1 : ∀ p ∈ s0, p.observed = false → p.single = true)
+    (done : List (List Nat)) (ids : List Nat) (h : History k (afterRounds s0 done) ids) :
+    Inv k (batchPlates (afterRounds s0 done) ids) (candidates (afterRounds s0 done) ids) ∧
+    (∀ m, (batchPlates (afterRounds s0 done) ids).length = m * k →
+      ∀ s, cnt (batchPlates (afterRounds s0 done) ids) s = 0 ∨ cnt (batchPlates (afterRounds s0 done) ids) s = k) ∧
+    (∀ el, eligibleOf k (afterRounds s0 done) ids = .ok el →
+      ∀ p ∈ el, p.observed = false ∧ p.id ∉ ids ∧ ∀ b ∈ done, p.id ∉ b) := by
+  obtain ⟨hS', h1'⟩ := Batchie.Lemmas.PolicyRounds.afterRounds_ok done hS h1
+  obtain ⟨hinv, hfull⟩ := C16_select_histories k hk _ hS' h1' ids h
+  refine ⟨hinv, hfull, ?_⟩
+  intro el hel p hp
+  obtain ⟨hmem, hobs, hid⟩ := C16_subset_screen k _ ids el hel p hp
+  refine ⟨hobs, hid, ?_⟩
+  intro b hb hin
+  have := Batchie.Lemmas.PolicyRounds.afterRounds_observed done s0 p.id (Or.inl ⟨b, hb, hin⟩) p hmem rfl
+  rw [this] at hobs
+  cases hobs
+
 /-- **Multi-sample plates are refused**: the filter raises `ValueError` iff some plate among the
     batch and the remaining plates does not contain exactly one sample. -/
 theorem C16_multi_sample_refused (k : Nat) (b u : List Plate) :
@@ -144,6 +184,19 @@ example : (demo.map (·.id)).Nodup ∧ (∀ p ∈ demo, p.observed = false → p
     the other samples none -/
 example : (batchPlates demo [3, 4]).length = 1 * 2 ∧ cnt (batchPlates demo [3, 4]) 1 = 2 ∧
     cnt (batchPlates demo [3, 4]) 0 = 0 ∧ cnt (batchPlates demo [3, 4]) 2 = 0 := by decide
+
+/-- a second round on the demo screen (k = 2): after the batch `[3, 4]` was reported, sample 1 has no plate left and only
+    sample 0 can be opened; `History` is inhabited there too -/
+theorem demo_round2 : eligibleOf 2 (afterRounds demo [[3, 4]]) [] = .ok [⟨0, [0], false⟩, ⟨1, [0], false⟩, ⟨2, [0], false⟩] := by
+  have e : afterRounds demo [[3, 4]] =
+      [⟨0, [0], false⟩, ⟨1, [0], false⟩, ⟨2, [0], false⟩, ⟨3, [1], true⟩, ⟨4, [1], true⟩, ⟨5, [2], false⟩] := by decide
+  rw [e]
+  unfold eligibleOf
+  rw [candidates_of_sorted (by decide)]
+  rfl
+
+example : History 2 (afterRounds demo [[3, 4]]) ([] ++ [1]) :=
+  .snoc [] _ ⟨1, [0], false⟩ .nil demo_round2 (by decide)
 
 /-- empty batch: sample 2 (one plate left) cannot be opened -/
 example : eligibleOf 2 demo [] = .ok [⟨0, [0], false⟩, ⟨1, [0], false⟩, ⟨2, [0], false⟩, ⟨3, [1], false⟩, ⟨4, [1], false⟩] := by
